@@ -14,11 +14,20 @@ def split_name(full):
     return None, full
 
 class DocGen:
-    def __init__(self, rng, nodes, forward=0.0, extras=0.3, shuffle=0.5):
+    def __init__(self, rng, nodes, forward=0.0, extras=0.3, shuffle=0.5, rich=0.0, loose=False, sibling_defs=False):
+        """rich: probability that a free string-valued position (doc, default, custom attribute keys and values -- and, with
+        `loose`, aliases: positions the parser does not interpret) holds a string that is awkward to copy at the text level
+        (ends in a backslash, escaped quotes, control characters, \\u escapes, whitespace) and that a free value is a nested
+        JSON value with numbers in non-canonical spellings"""
         self.rng, self.nodes = rng, nodes
         self.forward = forward
         self.extras = extras
         self.shuffle = shuffle
+        self.rich = rich
+        self.loose = loose
+        # sibling_defs: a named type is defined only where no record definition (other than the root's) is open -- next to the other
+        # definitions, never nested in one -- and written as a reference (forward, if need be) everywhere else
+        self.sibling_defs = sibling_defs
         self.defined = set()
         # occurrences of named nodes in traversal order, to decide where each gets defined
         self.occ = {}
@@ -30,6 +39,8 @@ class DocGen:
             else:
                 self.define_at[k] = 1
         self.seen = {}
+        self.open = set()          # records whose definition is being written
+        self.ref_kinds = {"inside": 0, "complete": 0, "forward": 0}      # references by the state of their target's definition
         self.ref_sites = []
         self.def_sites = []
         self.has_forward = any(v > 1 for v in self.define_at.values())
@@ -63,6 +74,7 @@ class DocGen:
         c = self.rng.choice(opts)
         r = ("str", simple if c == "bare" else ("." + simple if c == "dot" else self.nodes[k].name))
         # every reference written, with the namespace in force there (used to derive near-miss invalid documents)
+        self.ref_kinds["inside" if k in self.open else "complete" if k in self.defined else "forward"] += 1
         self.ref_sites.append((r, enclosing, k))
         return r
 
@@ -101,15 +113,38 @@ class DocGen:
             m = [("name", ("str", simple)), ("namespace", ("str", ""))]
         return m, ns
 
+    def free_string(self):
+        rng = self.rng
+        if rng.random() < self.rich:
+            return tricky_string(rng)
+        return rng.choice(["a doc", "", "with \"quotes\" and \\ and é"])
+
+    def free_key(self):
+        """a key no schema object interprets (never one of the attribute names of the specification)"""
+        rng = self.rng
+        if rng.random() < self.rich:
+            return rng.choice(["x-", "x ", "display name", "", "_", "ns:"]) + tricky_string(rng)
+        return "x-custom"
+
+    def free_value(self, depth=0):
+        rng = self.rng
+        if rng.random() >= self.rich:
+            return rng.choice([("num", "1"), ("null",), ("bool", True), ("obj", [("a", ("arr", []))])])
+        return free_json(rng, self, depth)
+
     def extras_for(self, kind):
         rng = self.rng
         out = []
         if rng.random() < self.extras:
-            out.append(("doc", ("str", rng.choice(["a doc", "", "with \"quotes\" and \\ and é"]))))
+            out.append(("doc", ("str", self.free_string())))
         if rng.random() < self.extras / 2:
-            out.append(("aliases", ("arr", [("str", "Old")])))
-        if rng.random() < self.extras / 3:
-            out.append(("x-custom", rng.choice([("num", "1"), ("null",), ("bool", True), ("obj", [("a", ("arr", []))])])))
+            if self.loose and rng.random() < self.rich:
+                out.append(("aliases", ("arr", [("str", self.free_string()) for _ in range(rng.randint(0, 3))])))
+            else:
+                out.append(("aliases", ("arr", [("str", "Old")])))
+        for _ in range(3 if self.rich else 1):
+            if rng.random() < self.extras / 3:
+                out.append((self.free_key(), self.free_value()))
         return out
 
     def members(self, m):
@@ -143,7 +178,12 @@ class DocGen:
             return ("arr", [self.gen(v, enclosing) for v in n.variants])
         # named types
         self.seen[k] = self.seen.get(k, 0) + 1
-        if k in self.defined or self.seen[k] != self.define_at[k]:
+        if self.sibling_defs and k != 0:
+            if k in self.defined or (self.open - {0}):
+                if k not in self.defined:
+                    self.has_forward = True
+                return self.ref(k, enclosing)
+        elif k in self.defined or self.seen[k] != self.define_at[k]:
             return self.ref(k, enclosing)
         self.defined.add(k)
         nm, ns = self.name_attrs(k, enclosing)
@@ -153,13 +193,20 @@ class DocGen:
         if n.t == "fixed":
             return self.members([("type", ("str", "fixed"))] + nm + [("size", ("num", str(n.size)))] + ltm + self.extras_for("fixed"))
         fields = []
+        self.open.add(k)
         for fname, fk in n.fields:
             fm = [("name", ("str", fname)), ("type", self.gen(fk, ns))]
             if rng.random() < self.extras:
-                fm.append(("default", rng.choice([("null",), ("num", "0"), ("str", "d")])))
+                fm.append(("default", self.free_value() if rng.random() < self.rich else rng.choice([("null",), ("num", "0"), ("str", "d")])))
             if rng.random() < self.extras / 2:
                 fm.append(("order", ("str", "ascending")))
+            if self.rich:
+                if rng.random() < self.extras:
+                    fm.append(("doc", ("str", self.free_string())))
+                if rng.random() < self.extras / 3:
+                    fm.append((self.free_key(), self.free_value()))
             fields.append(self.members(fm))
+        self.open.discard(k)
         return self.members([("type", ("str", "record"))] + nm + [("fields", ("arr", fields))] + ltm + self.extras_for("record"))
 
 def to_sx(j):
@@ -178,29 +225,216 @@ def to_sx(j):
         return "(obj%s)" % "".join(" (%s %s)" % (hx(k), to_sx(v)) for k, v in j[1])
     raise ValueError(t)
 
-def to_text(j, rng=None):
-    """JSON text; random whitespace when rng is given"""
+RESERVED_KEYS = ("type", "name", "namespace", "fields", "symbols", "items", "values", "size", "precision", "scale", "logicalType")
+
+# ---- strings and numbers whose copy at the text level is delicate -----------------------------------------------------------
+_PIECES = ["a", "b c", " ", "  ", "\t", "\n", "\r\n", "\\", "\\\\", "\"", "\\\"", "\"\\", "C:\\conf\\", "é", "\u00e9t\u00e9", "\U0001F600",
+           "/", "</", "\u0000", "\u001f", "\u007f", "\u2028", "\ufeff", "{", "}", "[", "]", ",", ":", "{\"k\": 1}", "no label",
+           "display label", "\\u0041", "\\n", "null", "0", "x y", "tab\there", "'"]
+
+def tricky_string(rng):
+    """strings with backslashes (also as the LAST character, once or several times), quotes, control characters, non-ASCII
+    (BMP and astral), characters that look like JSON structure, and whitespace (so that a copy which loses track of being inside a
+    string shows)"""
+    r = rng.random()
+    if r < 0.08:
+        return ""
+    parts = [rng.choice(_PIECES) for _ in range(rng.choice([1, 1, 2, 3, 5, 8]))]
+    s = "".join(parts)
+    r = rng.random()
+    if r < 0.3:
+        s += "\\" * rng.choice([1, 1, 2, 3])          # ends in backslash(es)
+    elif r < 0.4:
+        s += "\\\""                                     # ends in backslash quote
+    elif r < 0.5:
+        s += "\""
+    if rng.random() < 0.5:
+        s = rng.choice(["with space ", "a b", " "]) + s
+    if s in RESERVED_KEYS:
+        s += "_"
+    return s
+
+_ODD_NUMBERS = ["0", "1", "-1", "12", "-0", "0.0", "-0.0", "1e0", "1E0", "1e+0", "1e-0", "1.50", "1.0", "10", "1e1", "1E+2", "1e-2", "0.5e1",
+                "100e-2", "0e0", "0e10", "-0e-3", "1.25", "-1.25e2", "123456789", "123456.789e3", "0.00001", "0.000001", "0.0000015", "1e15", "1e16", "12345e11",
+                "12345e12", "1.5e300", "4294967296", "9007199254740993", "18446744073709551615", "18446744073709551616",
+                "9223372036854775807", "9223372036854775808", "-9223372036854775808", "-9223372036854775809", "1e22", "1e21", "0.1", "0.3",
+                "2.5E-5", "100000000000000000000", "1.0e0", "1.10", "3.0000", "0.10e-4", "7e-5", "7e-6", "1e-7"]
+
+def odd_number(rng):
+    """number tokens in spellings serde_json does not print itself (exponents, trailing zeros, -0, integers past u64 / i64): at most 17
+    significant digits and exponents of small magnitude (plus a few fixed extreme ones), see serde_num"""
+    r = rng.random()
+    if r < 0.6:
+        return rng.choice(_ODD_NUMBERS)
+    if r < 0.75:
+        return str(rng.randint(-10**rng.randint(1, 18), 10**rng.randint(1, 19)))
+    sign = rng.choice(["", "", "-"])
+    ip = str(rng.randint(0, 10**rng.randint(1, 6)))
+    fp = "".join(rng.choice("0123456789") for _ in range(rng.randint(0, 6)))
+    tok = sign + ip + ("." + fp if fp else "")
+    if rng.random() < 0.5:
+        tok += rng.choice(["e", "E"]) + rng.choice(["", "+", "-"]) + rng.choice(["", "0"]) + str(rng.randint(0, 15))
+    return tok
+
+def free_json(rng, dg, depth=0):
+    """any JSON value for a position the schema parser does not interpret (default values, custom attributes)"""
+    r = rng.random()
+    if depth >= 3 or r < 0.5:
+        c = rng.random()
+        if c < 0.45:
+            return ("str", tricky_string(rng))
+        if c < 0.8:
+            return ("num", odd_number(rng))
+        return rng.choice([("null",), ("bool", True), ("bool", False)])
+    if r < 0.75:
+        return ("arr", [free_json(rng, dg, depth + 1) for _ in range(rng.randint(0, 3))])
+    ks = []
+    for _ in range(rng.randint(0, 3)):
+        k = tricky_string(rng)
+        ks.append((k, free_json(rng, dg, depth + 1)))
+    if ks and rng.random() < 0.15:
+        ks.append((ks[0][0], free_json(rng, dg, depth + 1)))        # a repeated key (kept, in order)
+    return ("obj", ks)
+
+def serde_num(tok):
+    """the text serde_json prints for the number it reads from the token `tok` (what a document goes through when it is copied by
+    serde_transcode from serde_json's Deserializer to its compact Serializer): an integer token without fraction / exponent that fits
+    u64 (or, negative, i64) is printed as that integer; any other token is read as an f64 (-0 included) and printed with the shortest
+    digits that read back to the same f64, in plain notation with at least one fractional digit when the decimal exponent is
+    in -5..=15 and as d[.ddd]e[+|-]N otherwise. Python's float() / repr() give the correctly rounded value and the shortest
+    round-trip digits; serde_json's default float reader is exact for the tokens generated here (<= 19 significant digits with a small
+    exponent, or the fixed extreme tokens, all checked against the crate by the runs on the unchanged crate)."""
+    import re
+    m = re.fullmatch(r"(-?)(0|[1-9][0-9]*)(\.[0-9]+)?([eE][+-]?[0-9]+)?", tok)
+    if not m:
+        raise ValueError("not a JSON number: %r" % tok)
+    neg, ip, fp, ex = m.groups()
+    if fp is None and ex is None:
+        v = int(ip)
+        if not neg and v <= 2**64 - 1:
+            return str(v)
+        if neg and 0 < v <= 2**63:
+            return "-" + str(v)
+    f = float(tok)
+    if f != f or f in (float("inf"), float("-inf")):
+        raise ValueError("out of range for serde_json: %r" % tok)
+    r = repr(abs(f))                      # shortest round-trip digits: 'ddd.ddd' or 'd.ddde[+-]XX' or 'de[+-]XX'
+    sign = "-" if (neg and f == 0.0) or f < 0 else ""
+    mant, _, e = r.partition("e")
+    e10 = int(e) if e else 0
+    ipart, _, fpart = mant.partition(".")
+    digits = ipart + fpart
+    e10 += len(ipart) - 1                 # value = d.ddd * 10^e10 with digits = all digits
+    # strip leading zeros (0.00123 -> digits 000123)
+    stripped = digits.lstrip("0")
+    if not stripped:
+        return sign + "0.0"
+    e10 -= len(digits) - len(stripped)
+    digits = stripped.rstrip("0") or "0"
+    if -5 <= e10 <= 15:
+        if e10 < 0:
+            return sign + "0." + "0" * (-e10 - 1) + digits
+        if len(digits) <= e10 + 1:
+            return sign + digits + "0" * (e10 + 1 - len(digits)) + ".0"
+        return sign + digits[:e10 + 1] + "." + digits[e10 + 1:]
+    body = digits[0] + ("." + digits[1:] if len(digits) > 1 else "")
+    return sign + body + "e" + ("+" if e10 >= 0 else "-") + str(abs(e10))
+
+def norm_numbers(j):
+    """the document as serde_json's Deserializer hands it over: every number token in the spelling serde_json prints (serde_num).
+    This is the AST the model starts from (Json.v: `JNum tok`); a token that is an unsigned integer stays what it was"""
+    t = j[0]
+    if t == "num":
+        return ("num", serde_num(j[1]))
+    if t == "arr":
+        return ("arr", [norm_numbers(x) for x in j[1]])
+    if t == "obj":
+        return ("obj", [(k, norm_numbers(v)) for k, v in j[1]])
+    return j
+
+def json_string(s):
+    """serde_json's compact printer for strings (Json.v json_string): quote and backslash escaped, \\b \\f \\n \\r \\t, other control
+    characters below 0x20 as \\u00xx (lower case), everything else as is"""
+    out = ['"']
+    for ch in s:
+        o = ord(ch)
+        if ch == '"':
+            out.append('\\"')
+        elif ch == "\\":
+            out.append("\\\\")
+        elif o == 8:
+            out.append("\\b")
+        elif o == 12:
+            out.append("\\f")
+        elif o == 10:
+            out.append("\\n")
+        elif o == 13:
+            out.append("\\r")
+        elif o == 9:
+            out.append("\\t")
+        elif o < 32:
+            out.append("\\u%04x" % o)
+        else:
+            out.append(ch)
+    out.append('"')
+    return "".join(out)
+
+def spell_string(s, rng):
+    """one of the JSON spellings of the string s: characters that must be escaped get their short escape or a \\u escape (either hex
+    case), the others are written as they are or -- sometimes -- as \\u escapes (surrogate pairs above the BMP), `/` also as `\\/`"""
+    mode = rng.random()
+    p_esc = 0.0 if mode < 0.5 else (0.15 if mode < 0.8 else 1.0)
+    short = {'"': '\\"', "\\": "\\\\", "\b": "\\b", "\f": "\\f", "\n": "\\n", "\r": "\\r", "\t": "\\t"}
+    def u(o):
+        h = "%04x" % o
+        return "\\u" + (h.upper() if rng.random() < 0.5 else h)
+    out = ['"']
+    for ch in s:
+        o = ord(ch)
+        if ch in short:
+            out.append(short[ch] if rng.random() < 0.8 else u(o))
+        elif o < 32:
+            out.append(u(o))
+        elif ch == "/" and rng.random() < 0.3:
+            out.append("\\/")
+        elif rng.random() < p_esc:
+            if o >= 0x10000:
+                o -= 0x10000
+                out.append(u(0xD800 + (o >> 10)) + u(0xDC00 + (o & 0x3FF)))
+            else:
+                out.append(u(o))
+        else:
+            out.append(ch)
+    out.append('"')
+    return "".join(out)
+
+def to_text(j, rng=None, norm=False):
+    """JSON text; with rng: random whitespace between tokens and a random spelling of every string (number tokens as they are);
+    without: the compact text, number tokens in serde_json's spelling when `norm`"""
     def ws():
         if rng is None or rng.random() < 0.6:
             return ""
         return rng.choice([" ", "\n", "\t", "  ", " \r\n "])
+    def st(s):
+        return json_string(s) if rng is None else spell_string(s, rng)
     t = j[0]
     if t == "null":
         return "null"
     if t == "bool":
         return "true" if j[1] else "false"
     if t == "num":
-        return j[1]
+        return serde_num(j[1]) if norm else j[1]
     if t == "str":
-        return pyjson.dumps(j[1], ensure_ascii=(rng is not None and rng.random() < 0.3))
+        return st(j[1])
     if t == "arr":
-        return "[" + ws() + ("," + ws()).join(to_text(x, rng) + ws() for x in j[1]) + "]"
+        return "[" + ws() + ("," + ws()).join(to_text(x, rng, norm) + ws() for x in j[1]) + "]"
     if t == "obj":
-        return "{" + ws() + ("," + ws()).join(pyjson.dumps(k) + ws() + ":" + ws() + to_text(v, rng) + ws() for k, v in j[1]) + "}"
+        return "{" + ws() + ("," + ws()).join(st(k) + ws() + ":" + ws() + to_text(v, rng, norm) + ws() for k, v in j[1]) + "}"
     raise ValueError(t)
 
 def minified(j):
-    return to_text(j, None)
+    """what a parsed, unedited schema must report for the document j: the same document, compact, as serde_json prints it"""
+    return to_text(j, None, True)
 
 
 # ---------------------------------------------------------------------------------------------
@@ -561,3 +795,168 @@ def cycle_doc(rng):
         return False
     unconditional = any(color.get(a) is None and dfs(a) for a in range(k))
     return doc, unconditional
+
+
+def cycle_graph(rng):
+    """-> (nodes, unconditional): a node graph (node 0 = root) over records C0..Ck-1 that contain one another: a ring
+    C0 -> C1 -> ... -> C0 plus random further edges (to any record, itself included), every edge either DIRECT (a field whose type is
+    the record) or through a union / array / map (nested up to two levels), next to fields of other types. Unlike cycle_doc the graph
+    says nothing about WHERE each record gets defined: the records also occur in sibling positions of an envelope (the branches of a
+    root union, sibling fields of a root record -- directly, as ["null", C], array or map --, or not at all = everything nested below
+    C0), so that DocGen -- which defines a named type at any one of its occurrences -- spells every arrangement of a cycle: each
+    of its edges a reference from inside the definition of its target (the definitions nested in one another), a reference to a
+    record whose definition is complete (a sibling defined earlier), or a reference to a record defined further down (forward, resolved
+    late). `unconditional` = the direct edges alone contain a cycle = some record always contains itself (all records are reachable
+    from the root): the document must be rejected; otherwise every cycle goes through a union, array or map and the schema is valid."""
+    k = rng.choice([1, 2, 2, 2, 3, 3, 4, 5])
+    ns_pool = rng.choice([[None], [None], ["ns"], [None, "ns"], [None, "ns", "ns.sub"]])
+    nss = [rng.choice(ns_pool) for _ in range(k)]
+    full = [(nss[i] + "." if nss[i] else "") + "C%d" % i for i in range(k)]
+    env = rng.choice(["none", "union", "union", "union", "fields", "fields", "fields", "fields", "array", "map"])
+    nodes = []
+    def add(n):
+        nodes.append(n)
+        return len(nodes) - 1
+    root = add(None)                      # placeholder
+    recs = [add(_G.Node("record", name=full[i], fields=[])) for i in range(k)]
+    direct = set()
+
+    def through(target, depth=0):
+        """target below a union / array / map"""
+        c = rng.choice(["union", "union", "optional", "array", "map"])
+        if depth < 1 and rng.random() < 0.25 and c != "union":
+            target = through(target, depth + 1)
+        if c in ("union", "optional") and nodes[target].t == "union":
+            c = "array"
+        if c == "optional":
+            v = [add(_G.Node("null")), target]
+            if rng.random() < 0.3:
+                v.reverse()
+            return add(_G.Node("union", variants=v))
+        if c == "union":
+            v = [target]
+            for t in rng.sample(["null", "int", "string"], rng.randint(0, 2)):
+                v.insert(rng.randint(0, len(v)), add(_G.Node(t)))
+            return add(_G.Node("union", variants=v))
+        if c == "array":
+            return add(_G.Node("array", items=target))
+        return add(_G.Node("map", values=target))
+
+    mode = rng.choice(["all-direct", "all-direct", "one-conditional", "mixed", "mixed", "mixed"])
+    p_cond = {"all-direct": 0.0, "one-conditional": 0.0, "mixed": rng.choice([0.3, 0.6])}[mode]
+    broken = rng.randrange(k) if mode == "one-conditional" else None
+    edges = [(i, (i + 1) % k, i == broken or rng.random() < p_cond) for i in range(k)]          # the ring
+    for _ in range(rng.choice([0, 0, 0, 1, 1, 2]) if mode != "one-conditional" else 0):
+        edges.append((rng.randrange(k), rng.randrange(k), rng.random() < max(p_cond, 0.5 if mode == "all-direct" else 0.0)))
+    if mode == "one-conditional":
+        # further edges, all through unions / arrays / maps: the schema stays valid
+        for _ in range(rng.choice([0, 1, 2])):
+            edges.append((rng.randrange(k), rng.randrange(k), True))
+    per = {i: [] for i in range(k)}
+    for a, b, cond in edges:
+        per[a].append((b, cond))
+    for i in range(k):
+        slots = list(per[i])
+        rng.shuffle(slots)
+        fields = []
+        for b, cond in slots:
+            if not cond:
+                direct.add((i, b))
+            fields.append(("f%d" % len(fields), through(recs[b]) if cond else recs[b]))
+            if rng.random() < 0.3:
+                fields.insert(rng.randint(0, len(fields)), ("p%d" % len(fields), add(_G.Node(rng.choice(["int", "string", "null", "long"])))))
+        nodes[recs[i]].fields = fields
+    # the envelope: where the records ALSO occur, next to one another
+    sib = list(range(k))
+    rng.shuffle(sib)
+    if env in ("union", "fields") and k > 1 and rng.random() < 0.3:
+        sib = sib[:rng.randint(1, k)]
+    if env == "none":
+        # node 0 must be the root: put C0 there
+        nodes[0] = nodes[recs[0]]
+        nodes[recs[0]] = _G.Node("null")          # unreachable after the renumbering below
+        remap = {recs[0]: 0}
+        for n in nodes:
+            if n.t == "array" and n.items in remap:
+                n.items = 0
+            elif n.t == "map" and n.values in remap:
+                n.values = 0
+            elif n.t == "union":
+                n.variants = [remap.get(v, v) for v in n.variants]
+            elif n.t == "record":
+                n.fields = [(f, remap.get(fk, fk)) for f, fk in n.fields]
+    elif env == "union":
+        v = [recs[i] for i in sib]
+        if rng.random() < 0.4:
+            v.insert(rng.randint(0, len(v)), add(_G.Node(rng.choice(["null", "int"]))))
+        nodes[0] = _G.Node("union", variants=v)
+    elif env == "fields":
+        fields = []
+        for i in sib:
+            c = rng.choice(["direct", "direct", "optional", "through"])
+            if c == "direct":
+                key = recs[i]
+            elif c == "optional":
+                key = add(_G.Node("union", variants=[add(_G.Node("null")), recs[i]]))
+            else:
+                key = through(recs[i])
+            fields.append(("s%d" % len(fields), key))
+            if rng.random() < 0.25:
+                fields.insert(rng.randint(0, len(fields)), ("q%d" % len(fields), add(_G.Node(rng.choice(["int", "string", "bytes"])))))
+        nodes[0] = _G.Node("record", name=rng.choice(["Env", "ns.Env", "env.Env"]), fields=fields)
+    elif env == "array":
+        nodes[0] = _G.Node("array", items=recs[0])
+    else:
+        nodes[0] = _G.Node("map", values=recs[0])
+    adj = {}
+    for a, b in direct:
+        adj.setdefault(a, []).append(b)
+    color = {}
+    def dfs(a):
+        color[a] = 1
+        for b in adj.get(a, []):
+            if color.get(b) == 1 or (color.get(b) is None and dfs(b)):
+                return True
+        color[a] = 2
+        return False
+    unconditional = any(color.get(a) is None and dfs(a) for a in range(k))
+    return compact(nodes), unconditional
+
+
+STRING_POSITIONS = ["schema-doc", "field-doc", "default", "default-nested", "custom-key", "custom-value", "custom-nested-key", "alias",
+                    "field-custom-key", "enum-doc", "enum-default", "symbol-doc"]
+STRING_ENDINGS = ["\\", "\\\\", "a\\", " \\", "C:\\conf\\", "\\\"", "\"", "q\"\\", "\\\\\\", "\\u005c\\", "\n\\", "é\\"]
+
+def string_position_docs():
+    """-> [(label, document)]: one valid document (a record with two fields, one of them an enum) per (position, ending): the string at
+    `position` -- every position of a schema document whose string the parser does not interpret: doc of a record / field / enum,
+    default value (plain or nested in an object / array), key or value of a custom attribute (top level or nested), alias -- is one
+    that ends in `ending` (backslashes, quotes, combinations); every other free position, before and after it, holds a string with
+    whitespace, custom attributes hold numbers in non-canonical spellings"""
+    out = []
+    for pos in STRING_POSITIONS:
+        for e in STRING_ENDINGS:
+            def s(p, plain):
+                return ("stored under " + e) if p == pos else plain
+            enum = ("obj", [("type", ("str", "enum")), ("name", ("str", "Mode")), ("doc", ("str", s("enum-doc", "the  mode"))),
+                            ("symbols", ("arr", [("str", "A"), ("str", "B")])), ("default", ("str", "A")),
+                            ("x default", ("str", s("enum-default", "a b"))),
+                            ("symbol docs", ("obj", [("A", ("str", s("symbol-doc", "first one"))), ("B", ("str", "second one"))]))])
+            doc = ("obj", [
+                ("type", ("str", "record")), ("name", ("str", "ns.Conf")),
+                ("doc", ("str", s("schema-doc", "settings of the service"))),
+                ("aliases", ("arr", [("str", s("alias", "Old Conf")), ("str", "older conf")])),
+                (s("custom-key", "display name"), ("str", s("custom-value", "the conf"))),
+                ("fields", ("arr", [
+                    ("obj", [("name", ("str", "label")), ("type", ("str", "string")), ("default", ("str", s("default", "no label"))),
+                             ("doc", ("str", s("field-doc", "display label"))), (s("field-custom-key", "ui hint"), ("num", "1e0"))]),
+                    ("obj", [("name", ("str", "attrs")), ("type", ("obj", [("type", ("str", "map")), ("values", ("str", "string"))])),
+                             ("default", ("obj", [("k 1", ("str", s("default-nested", "v 1"))), ("k 2", ("arr", [("str", "v 2"), ("num", "-0")]))]))]),
+                    ("obj", [("name", ("str", "mode")), ("type", enum), ("default", ("str", "A")), ("doc", ("str", "the mode of the conf"))]),
+                ])),
+                ("x meta", ("obj", [(s("custom-nested-key", "nested key"), ("arr", [("num", "1.50"), ("str", "one and a half"), ("obj", [])])),
+                                    ("after", ("str", "still  here"))])),
+                ("last one", ("str", "the end")),
+            ])
+            out.append(("%s/%s" % (pos, e.encode("unicode_escape").decode()), doc))
+    return out
